@@ -1,6 +1,7 @@
 package main
 
 import (
+	"go/token"
 	"encoding/json"
 	"os/exec"
 	"flag"
@@ -294,7 +295,7 @@ func cmdCheck(args []string) int {
 		if fn.Signature.Recv() != nil {
 			rt := fn.Signature.Recv().Type()
 			for _, ic := range db.Contracts {
-				if ic.Extern || !strings.HasSuffix(ic.Key, "."+fn.Name()) || ic == c || strings.Contains(c.Key, "#") {
+				if ic.Extern || ic.NoRefine || !strings.HasSuffix(ic.Key, "."+fn.Name()) || ic == c || strings.Contains(c.Key, "#") {
 					continue
 				}
 				it := eng.namedType(strings.TrimSuffix(ic.Key, "."+fn.Name()))
@@ -436,6 +437,9 @@ func cmdCheck(args []string) int {
 			trusted[t] = true
 		}
 		for _, n := range v.notes {
+			if *verbose {
+				fmt.Println("  note:", n)
+			}
 			notes = append(notes, n)
 			fvReport[v].Notes = append(fvReport[v].Notes, n)
 		}
@@ -696,6 +700,25 @@ func (e *Engine) stableViolations() []string {
 					}
 					if _, fresh := base.(*ssa.Alloc); fresh {
 						continue
+					}
+					if ld, ok := base.(*ssa.UnOp); ok && ld.Op == token.MUL {
+						// the object is held in a local variable (captured by a closure) that is
+						// only ever assigned objects allocated in this function: still construction
+						if cell, ok := ld.X.(*ssa.Alloc); ok && cell.Referrers() != nil {
+							onlyNew := true
+							n := 0
+							for _, r := range *cell.Referrers() {
+								if s2, ok := r.(*ssa.Store); ok && s2.Addr == cell {
+									n++
+									if _, isNew := s2.Val.(*ssa.Alloc); !isNew {
+										onlyNew = false
+									}
+								}
+							}
+							if onlyNew && n > 0 {
+								continue
+							}
+						}
 					}
 					out = append(out, fmt.Sprintf("%s written in %s at %s", shortKey(key), shortKey(fnKey(fn)), posStr(e.fset, st.Pos())))
 				}
